@@ -255,6 +255,8 @@ class FloatRange(HasUnit, DataType):
             except Exception:
                 raise WrongTypeError(f'can not convert {shortrepr(value)} to a float') from None
 
+        if value != value:
+            raise RangeError('NaN is not a valid value')
         # map +/-infty to +/-max possible number
         return clamp(-sys.float_info.max, value, sys.float_info.max)
 
